@@ -129,6 +129,37 @@ static Outcome runOnce(const KV& c)
             }
         }
     }
+    // The same through the Level interface the solver itself uses (initializeDirectSolver / directSolveInPlace /
+    // initializeResidual / computeResidual), on a Level object that has ALREADY been initialised for the other boundary
+    // mode: re-initialising a level replaces its operators (take strategy: both caches on).
+    if (c.getI("via_level", 0)) {
+        o.cls("via_level_reinitialised");
+        Level& L = *H.levels[0];
+        const auto method = StencilDistributionMethod::CPU_TAKE;
+        L.initializeDirectSolver(*H.geometry, *H.coefficients, !p.dirbc, 1, method);
+        L.initializeResidual(*H.geometry, *H.coefficients, !p.dirbc, 1, method);
+        L.initializeDirectSolver(*H.geometry, *H.coefficients, p.dirbc, 1, method);
+        L.initializeResidual(*H.geometry, *H.coefficients, p.dirbc, 1, method);
+        Vector<double> f = makeVector(g, fkind, fseed + 99);
+        Vector<double> x = f, r(n);
+        L.directSolveInPlace(x);
+        L.computeResidual(r, f, x);
+        LD xn = 0;
+        for (int i = 0; i < n; i++)
+            xn = std::max(xn, fabsl((LD)x[i]));
+        for (int i = 0; i < n; i++) {
+            const LD b = 2 * CBND * n * EPS * (rowNorm[i] * xn + fabsl((LD)f[i]));
+            if (!(fabsl((LD)r[i]) <= b)) {
+                int ir, it;
+                g.multiIndex(i, ir, it);
+                char buf[300];
+                snprintf(buf, sizeof buf, "Level re-initialised for the %s boundary mode: residual of directSolveInPlace at node (%d,%d) is %.3e, bound %.3Le",
+                         p.dirbc ? "Dirichlet" : "across-origin", ir, it, r[i], b);
+                o.fail("level_reinitialised", buf);
+                return o;
+            }
+        }
+    }
     return o;
 }
 
@@ -165,6 +196,7 @@ static KV genCase()
     c.putI("cache_coef", rbool());
     c.putI("cache_geom", rbool());
     c.putI("nrhs", rint(1, 3));
+    c.putI("via_level", rweighted({3, 1}));
     c.putI("f_scale_exp", rpick({0, 0, 0, 0, 0, 0, -600, -300, 300, 600}));
     c.putI("f_kind", rweighted({4, 3, 2, 2, 3, 1}));
     c.putU("f_seed", rseed());
